@@ -102,6 +102,45 @@ theorem C13_protocol_rejects_store_before_write :
 theorem C13_protocol_rejects_missing_defer :
     protocolOK [.waitDone, .writeErr, .storeFlag] [.loadFlag, .readErr] false = false := by decide
 
+
+/-- reachability in the two-thread system -/
+inductive Reach (W check : List Act) (dc : Bool) : Sys → Prop
+  | init : Reach W check dc Sys.init
+  | step {x y : Sys} : Reach W check dc x → y ∈ Sys.next W check dc x → Reach W check dc y
+
+/-- a set that contains the initial state and is closed under `next` contains every reachable state -/
+theorem reach_in_closed (W check : List Act) (dc : Bool) (states : List Sys) (hinit : Sys.init ∈ states)
+    (hclosed : ∀ x ∈ states, ∀ y ∈ Sys.next W check dc x, y ∈ states) : ∀ x, Reach W check dc x → x ∈ states := by
+  intro x hx
+  induction hx with
+  | init => exact hinit
+  | step _ hy ih => exact hclosed _ ih _ hy
+
+/-- the explored set of the extracted protocol -/
+def explored : List Sys := reach Gen.Run_watcher Gen.Run_check Gen.Run_deferCancel 12 [Sys.init]
+
+theorem explored_init : Sys.init ∈ explored := by decide
+
+/-- THE invariant, for EVERY reachable state of the hand-off extracted from the current source (unboundedly many
+    loop iterations, any interleaving, cancellation at any moment or never): ctxErr is never read before the
+    ordered write, and once Run has returned the watcher goroutine can always run to completion -/
+theorem C13_invariant : ∀ x, Reach Gen.Run_watcher Gen.Run_check Gen.Run_deferCancel x →
+    x.race = false ∧ (x.returned = true → watcherCanFinish Gen.Run_watcher x = true) := by
+  have hp := C13_protocol
+  simp only [protocolOK, Bool.and_eq_true, List.all_eq_true] at hp
+  obtain ⟨⟨hclosed, hrace⟩, hleak⟩ := hp
+  intro x hx
+  have hin : x ∈ explored := by
+    apply reach_in_closed _ _ _ explored explored_init _ x hx
+    intro a ha b hb
+    have := hclosed b (List.mem_flatMap.mpr ⟨a, ha, hb⟩)
+    simpa [explored] using this
+  constructor
+  · have := hrace x hin; simpa using this
+  · intro hr
+    have := hleak x hin
+    simpa [hr] using this
+
 /-- the cancel check is the first thing in every iteration (loads the flag, and reads ctxErr only after seeing it set) -/
 theorem C13_check_shape : Gen.Run_check = [.loadFlag, .readErr] ∧ Gen.Run_watcher = [.waitDone, .writeErr, .storeFlag] ∧
     Gen.Run_deferCancel = true := ⟨rfl, rfl, rfl⟩
